@@ -76,7 +76,7 @@ Theorem src_segment_clip uuid s e dur hop incl :
   exists l, Source.segment_clip (seg_fuel s e h) uuid s e dur hop incl = Some (Ok l) /\
             Forall2 (seg_match uuid) l (windows s e dur h incl).
 Proof.
-  intros h Hd Hh. unfold Source.segment_clip. fold h.
+  intros h Hd Hh. autounfold with src. fold h.
   assert (E1 : qleb dur 0 = false) by (apply qleb_false; exact Hd).
   assert (E2 : qleb h 0 = false) by (apply qleb_false; exact Hh).
   rewrite E1, E2.
@@ -98,7 +98,7 @@ Theorem src_segment_clip_rejects fuel uuid s e dur hop incl :
   let h := match hop with Some v => v | None => dur end in
   (dur <= 0 \/ h <= 0) -> Source.segment_clip fuel uuid s e dur hop incl = Some (Err EValue).
 Proof.
-  intros h H. unfold Source.segment_clip. fold h.
+  intros h H. autounfold with src. fold h.
   destruct (qleb dur 0) eqn:E1; [reflexivity|].
   destruct (qleb h 0) eqn:E2; [reflexivity|].
   apply qleb_false in E1. apply qleb_false in E2. exfalso. destruct H; lra.
